@@ -684,31 +684,32 @@ func runC05(c *Ctx) {
 	// ---------------------------------------------------------------- R9
 	c.rule("R9", "a served cache hit is not stored again; the minimal TTL is the minimum over all non-OPT records", 2)
 	if ex := c.fn(relCachePlugin, "Cache", "Exec"); ex != nil {
-		good := false
+		// D42: "is the response the served copy" cannot be decided by comparing pointers — dual_selector and fallback run
+		// the rest of the chain on copies of the context and hand back the copy's response. Only a miss stores: every
+		// store in Exec is guarded by `cached == nil` for the message the lookup returned.
+		good, n := true, 0
 		eachInstr(ex, func(in ssa.Instruction) {
 			ci, ok := in.(*ssa.Call)
 			if !ok || staticCallee(ci) != save {
 				return
 			}
-			r := ci.Call.Args[1]
+			n++
+			miss := false
 			for _, g := range guardsOfInstr(in) {
-				if cm, ok := g.asCmp(); ok && cm.Op == token.NEQ && !isNilConst(cm.Y) && !isNilConst(cm.X) {
-					a, b := cm.X, cm.Y
-					if b == r {
-						a, b = b, a
-					}
-					if a == r {
-						if e2, ok := b.(*ssa.Extract); ok {
-							if cl, ok := e2.Tuple.(*ssa.Call); ok && staticCallee(cl) == get {
-								good = true
-							}
+				if cm, ok := g.asCmp(); ok && cm.Op == token.EQL && isNilConst(cm.Y) {
+					if e2, ok := cm.X.(*ssa.Extract); ok && e2.Index == 0 {
+						if cl, ok := e2.Tuple.(*ssa.Call); ok && staticCallee(cl) == get {
+							miss = true
 						}
 					}
 				}
 			}
+			if !miss {
+				good = false
+			}
 		})
-		c.check(good, "hit-not-restored", ex.Pos(), "the response is stored only when it is not the served cache copy",
-			"the served cache copy is stored again after the chain ran: a stale (lazy) answer with its 5 s TTL is re-admitted as a fresh entry and every hit restarts the entry's age")
+		c.check(good && n > 0, "hit-not-restored", ex.Pos(), "the response is stored only after a miss",
+			"after a hit the response is stored again when a later plugin hands back a copy of the served answer (dual_selector, fallback; a pointer comparison cannot tell): a stale (lazy) answer with its 5 s TTL is re-admitted as a fresh entry, every hit restarts the entry's age and a name asked more than once a second is never fetched again (D42)")
 	}
 	if gm := c.fn(relDnsutils, "", "GetMinimalTTL"); gm != nil {
 		// result: 0 without records, else a value that is only ever replaced by a smaller header TTL of a non-OPT record
